@@ -13,7 +13,7 @@ import gen_linemap
 import kani_run
 import side_unit
 import session_probe
-from common import VERIF, REPO, scratch, Undecided, write_evidence, write_replay, load_known_findings, finish
+from common import VERIF, REPO, scratch, Undecided, write_evidence, write_replay, load_known_findings, finish, seed
 from rustcut import AnchorLost
 
 FLAGS = ('-Z', 'stubbing')
@@ -114,9 +114,17 @@ def main(prop, tier):
                 # harnesses below check the line-map contract it assumes, and the same functions once more, on enumerated documents
                 fd = pool.submit(side_unit.run, du)
                 fdc = [pool.submit(side_unit.canary, du, c, i) for i, c in enumerate(side_unit.UNITS[du]['canaries'][:1 if tier == 'quick' else None])]
-            fprobe = pool.submit(session_probe.run_probe) if prop == 'C15' else None
+            # native probe of the real Server: C15 looks at the whole-notification scenarios, C13 at the generated edit histories (K6)
+            fprobe = pool.submit(session_probe.run_probe, REPO, 40 if tier == 'quick' else 400, seed()) if prop in ('C13', 'C15') else None
             results = kani_run.run_many(d, names, FLAGS, 2400, jobs=jobs)
             probe = fprobe.result() if fprobe else None
+            if probe and probe.get('scenarios'):
+                mine_sc = (lambda n: n.startswith('history_')) if prop == 'C13' else (lambda n: not n.startswith('history_'))
+                probe['scenarios_of_other_property'] = sorted(n for n in probe['scenarios'] if not mine_sc(n) and probe['scenarios'][n] == 'FAILED')
+                probe['scenarios'] = {n: v for n, v in probe['scenarios'].items() if mine_sc(n)}
+                probe['symptoms'] = {n: v for n, v in probe['symptoms'].items() if mine_sc(n)}
+                if probe['status'] == 'failed' and not probe['symptoms']:
+                    probe['status'] = 'passed'
             can = [f.result() for f in fc]
             if du:
                 ded = fd.result()
@@ -159,7 +167,7 @@ def main(prop, tier):
     if probe and probe['status'] == 'failed':
         # bounded native probe of the real Server::on_did_change: every failing scenario is a concrete history on the real code
         sy = sorted(probe['symptoms'].items())
-        oblig = 'session-probe :: Server::on_did_change :: %s' % sy[0][1].split(' | ')[-1]
+        oblig = 'session-probe :: Server::on_did_change :: %s' % (sy[0][1].split(' | ')[-1] or 'scenario failed')
         known = next((k for k in kf.get('findings', []) if k.get('property') == prop and k.get('obligation') == oblig), None)
         if known:
             known_lines.append('%s (%d scenarios, e.g. %s)' % (known.get('what', oblig), len(sy), sy[0][0]))
@@ -222,7 +230,7 @@ def main(prop, tier):
         'server.rs::on_did_change (tokio / async-lsp) is not buildable under Kani: the per-change loop is covered only by the induction argument of DESIGN.md 3.4 (K6)',
         'Slab, Arc, text-size, anyhow are the real crates, executed symbolically; arithmetic is CBMC machine arithmetic with overflow checks (debug-build semantics)',
         'alloc::fmt::format is stubbed in harnesses that construct anyhow errors (message text is irrelevant to the contracts)'] + (
-        ['native session probe (bounded, real crate glas built with cargo test --offline): 8 whole-notification scenarios through the real Server::on_did_open / on_did_change (several changes, an earlier one rejected, mid-surrogate, multi-byte); not a proof - server.rs is outside both verifiers'] if probe else [])
+        ['native session probe (bounded, real crate glas built with cargo test --offline): whole-notification scenarios (C15: several changes, an earlier one rejected, mid-surrogate, multi-byte) and generated edit histories compared with the LSP reference client (C13, clause K6: 40 histories in the quick tier, 400 in the thorough tier, seeded by VERIF_SEED) through the real Server::on_did_open / on_did_change; not a proof - server.rs is outside both verifiers'] if probe else [])
     write_evidence(prop, tier, 'model_checking', cov, assumptions, time.time() - t0, len(violations), {'known_findings_matched': known_lines})
     if probe and probe['status'] == 'undecided' and not violations:
         finish(prop, [], known_lines, 'native session probe not decided: %s' % probe.get('why', '')[:600])
